@@ -1,6 +1,6 @@
 SPECIFICATION Spec
 CONSTANT MaxCuts = 2
-CONSTANT DocIds = {"d1", "d2", "d3", "d4", "d5"}
+CONSTANT DocIds = {"d1", "d2", "d3", "d4", "d5", "d6"}
 INVARIANT Transparent
 ACTION_CONSTRAINT Emit
 CHECK_DEADLOCK FALSE
